@@ -132,3 +132,11 @@ reg("C10", level="exploration", overlay="world",
     level_text="For every packet the project's encoder emits at pool levels 2..8 (requests), 1..7 cookies (responses) and for sealed cookies, all single-bit flips, all type/length field values from the alphabet, all truncations and key/identifier swaps are enumerated; requests are judged by the real listener (reply or not), responses and cookies by the real functions. Exhaustive over that mutation space.",
     budget={"quick": 150, "thorough": 600}, workers={"quick": 8, "thorough": 8},
     assumptions=["mutations are single-site", "the authenticator field's own type/length header is not covered by the AEAD and is excluded from the must-reject region (a changed type is still rejected, checked by construction)"])
+
+reg("C13", level="exploration", overlay="world",
+    technique="exhaustive product of crafted SCION packets (SCION library builders) against the real SCION listener loops over an in-memory network, replies parsed with the library",
+    level_text="Every packet of the stated product is handled by the real runSCIONServer (gopacket parsing, authenticator check with keys from the library's DRKey derivation, path reversal, forwarding) and the datagrams it writes are compared with the statement: who is served, where the reply goes, reversed path, swapped addresses and ports, authenticator on the reply, forwarding condition. Exhaustive over the product and over all single-bit flips of a verified request.",
+    budget={"quick": 150, "thorough": 900}, workers={"quick": 2, "thorough": 2},
+    variants=[{"name": "main"}, {"name": "mockkeys", "env": {"USE_MOCK_KEYS": "true"}}],
+    assumptions=["DRKeys come from a fake daemon using the library's own derivation (variant mockkeys: the project's USE_MOCK_KEYS switch); a real DRKey service is not available",
+                 "hop-field MACs are not validated by an end host and are arbitrary here"])
